@@ -8,6 +8,11 @@ import (
 
 type BPM uint
 
+const (
+	minBPM BPM = 4        // 60,000,000/3 does not fit the 24-bit tempo field
+	maxBPM BPM = 60000000 // above, the tempo rounds to 0 microseconds
+)
+
 func NewBPM(v uint) (BPM, error) {
 	x := BPM(v)
 	return x, x.validate()
@@ -29,6 +34,10 @@ func (b *BPM) UnmarshalYAML(value *yaml.Node) error {
 func (b BPM) validate() error {
 	if b == 0 {
 		return errorx.Invalid("BPM should be positive")
+	}
+	// a MIDI tempo is 60,000,000/bpm microseconds per quarter note in 24 bits
+	if b < minBPM || b > maxBPM {
+		return errorx.Invalid("BPM should be between %d and %d", minBPM, maxBPM)
 	}
 	return nil
 }
